@@ -38,8 +38,9 @@ type H struct {
 
 type Pub struct {
 	Cancelled bool   `json:"cancelled,omitempty"`
+	Expired   bool   `json:"expired,omitempty"` // published with a context whose deadline has already passed
 	UseCtx    bool   `json:"usectx,omitempty"`
-	Persist   string `json:"persist"` // ok reject bad (unencodable event)
+	Persist   string `json:"persist"` // ok reject bad (unencodable event) slow (the append takes 3 ms and succeeds)
 }
 
 type Case struct {
@@ -50,6 +51,10 @@ type Case struct {
 	// Ambient: further bus options that must not change what observability
 	// sees (hooks, persistence timeout of an hour, error handlers, batch size).
 	Ambient int `json:"ambient,omitempty"`
+	// ShortTO: WithPersistenceTimeout(1ms).  The store does not watch its
+	// context, so every append that is not rejected still succeeds, however
+	// late, and observability must report it as a success.
+	ShortTO bool `json:"short_to,omitempty"`
 }
 
 // truth is what really happened, counted by the harness itself.
@@ -88,6 +93,9 @@ func workload(c *Case, obs eventbus.Observability, ctxCheck func(ctx context.Con
 	}
 	opts = append(opts, eventbus.WithObservability(obs), eventbus.WithPanicHandler(func(any, any2, any) {}))
 	opts = append(opts, busmodel.Ambient(c.Ambient&^(busmodel.AmbObs|busmodel.AmbStore|busmodel.AmbPanicHandler))...)
+	if c.ShortTO {
+		opts = append(opts, eventbus.WithPersistenceTimeout(time.Millisecond))
+	}
 	bus := eventbus.New(opts...)
 
 	var nestedDone atomic.Bool
@@ -139,11 +147,15 @@ func workload(c *Case, obs eventbus.Observability, ctxCheck func(ctx context.Con
 	}
 	appendNo := 0
 	reject := map[int]bool{}
+	slow := map[int]bool{}
 	for _, p := range c.Pubs {
 		if p.Persist != "bad" {
 			appendNo++
 			if p.Persist == "reject" {
 				reject[appendNo] = true
+			}
+			if p.Persist == "slow" {
+				slow[appendNo] = true
 			}
 		}
 	}
@@ -152,17 +164,24 @@ func workload(c *Case, obs eventbus.Observability, ctxCheck func(ctx context.Con
 			if op == "append" && reject[n] && !nestedAppend(seq) {
 				return storekit.Action{Err: storekit.ErrInjected}
 			}
+			if op == "append" && slow[n] {
+				return storekit.Action{Delay: 3 * time.Millisecond}
+			}
 			return storekit.Action{}
 		})
 	}
 	cctx, cancel := context.WithCancel(context.Background())
 	cancel()
+	ectx, ecancel := context.WithDeadline(context.Background(), time.Now().Add(-time.Hour))
+	defer ecancel()
 	for i, p := range c.Pubs {
 		id := i + 1
 		tr.publishes++
 		var ctx context.Context
 		if p.Cancelled {
 			ctx = cctx
+		} else if p.Expired {
+			ctx = ectx
 		} else if p.UseCtx {
 			cctx2, cancel2 := context.WithCancel(context.WithValue(context.Background(), tokKey{"user"}, id))
 			cancels.Store(id, cancel2)
@@ -347,8 +366,11 @@ func classify(c *Case, tr *truth, o *vkit.Outcome) {
 		}
 	}
 	for _, p := range c.Pubs {
-		if p.Cancelled {
+		if p.Cancelled || p.Expired {
 			skipped = true
+		}
+		if c.Store && p.Persist != "bad" && p.Persist != "reject" && (c.ShortTO || c.Ambient&busmodel.AmbTimeout != 0) && (p.Expired || (p.Persist == "slow" && c.ShortTO)) {
+			o.Class("append_succeeds_after_the_persist_deadline")
 		}
 	}
 	for _, h := range c.Handlers {
